@@ -352,3 +352,16 @@ for _pid, _t in (("C01", "FuzzC01Ops"), ("C06", "FuzzC06Ops"), ("C12", "FuzzC12O
     PLAN[_pid]["rule"] += ("; thorough tier: native coverage-guided fuzzing (%s, 150 s, 8 workers) of the same executor - bytes decode into an op program, every oracle of the engine family runs inside the target" % _t)
 PLAN["C15"]["rule"] = PLAN["C15"]["rule"].replace("(a native go-fuzz entry FuzzC15WireRead exists for manual campaigns; it is not part of the tiers because the pre-built test binary carries no coverage instrumentation)",
                                                   "(thorough tier: FuzzC15WireRead, native coverage-guided fuzzing of the decode differential, 90 s)")
+
+PLAN["C04"]["quick"]["tests"][0]["shards"] = 13
+PLAN["C04"]["quick"]["tests"].append({"run": "TestC04Bootstrap", "shards": 3, "checks": 60, "timeout": 130})
+PLAN["C04"]["thorough"]["tests"][0]["shards"] = 13
+PLAN["C04"]["thorough"]["tests"].append({"run": "TestC04Bootstrap", "shards": 3, "checks": 1500, "timeout": 840})
+PLAN["C04"]["rule"] += "; TestC04Bootstrap: the scripted bootstrap programs of C09 - after a single- or multi-address start only replicas holding the highest revision count are RW, and only they serve the reads that follow"
+
+PLAN["C01"]["quick"]["tests"][0]["shards"] = 10
+PLAN["C01"]["quick"]["tests"].append({"run": "TestC01Sparse", "shards": 2, "checks": 80, "timeout": 100})
+PLAN["C01"]["thorough"]["tests"][0]["shards"] = 9
+PLAN["C01"]["thorough"]["tests"].append({"run": "TestC01Sparse", "shards": 2, "checks": 600, "timeout": 840})
+PLAN["C01"]["rule"] += ("; TestC01Sparse: volumes of 1-8 GiB (sparse files, sparse model) with writes around the GiB, 2^31 and 2^32 byte marks and at the very end, and 'comb' writes that give one file "
+                        "thousands of separate extents (more than one FIEMAP call returns), snapshots, reclamation on/off, reload, close/open with and without preload: every block ever written and its neighbours read back")
